@@ -87,15 +87,15 @@ func genC02(r *rng, tier string, add func(g *G)) {
 			}
 			g.checkAll()
 			g.indexShape()
-			g.do("dump")
+			g.dump()
 			g.close()
-			g.do("dump")
+			g.dump()
 			g.do("dumprecs")
 			g.open()
 			if !strings.Contains(g.last(), "recovered=0") {
 				g.c.Steps[len(g.c.Steps)-1].Expect = []string{"open ok recovered=0"}
 			}
-			g.do("dump")
+			g.dump()
 			g.checkAll()
 			g.c.tag("clean_restarts")
 		}
@@ -121,7 +121,7 @@ func (g *G) crashLast(before, after map[string][]byte, i, cut int) {
 		g.ref = copyMap(before)
 	}
 	g.count()
-	g.do("dump")
+	g.dump()
 }
 
 func copyMap(m map[string][]byte) map[string][]byte {
@@ -184,6 +184,7 @@ func genCrash(prop string, epochsMax int) genFunc {
 			if i%3 == 0 {
 				// long values straddling sector boundaries
 				g.keys = g.randomKeys(6)
+				g.bigValues = true
 			}
 			epochs := 1 + g.r.intn(epochsMax)
 			for e := 0; e < epochs; e++ {
@@ -253,7 +254,7 @@ func genC05(r *rng, tier string, add func(g *G)) {
 				g.del(g.pickLive())
 			}
 		}
-		g.do("dump")
+		g.dump()
 		g.do("cpick", "cpick ok")
 		steps := 0
 		for {
@@ -291,13 +292,13 @@ func genC05(r *rng, tier string, add func(g *G)) {
 		}
 		g.c.tag("compaction_steps")
 		g.checkAll()
-		g.do("dump")
+		g.dump()
 		// resurrection shows only after a recovery
 		g.do("kill")
 		g.isOpen = false
 		g.open()
 		g.checkAll()
-		g.do("dump")
+		g.dump()
 		add(g)
 	}
 }
@@ -403,7 +404,7 @@ func genC08(r *rng, tier string, add func(g *G)) {
 		g.c.Steps[len(g.c.Steps)-1].Expect = []string{"open ok recovered=1"}
 		g.ref = exp
 		g.checkAll()
-		g.do("dump")
+		g.dump()
 		g.do("dumprecs")
 		// the recovered database stays usable
 		g.keys = append(g.keys, []byte("after"))
